@@ -356,4 +356,166 @@ theorem intdiv_partial (lt : ITy) (lv : Int) (rt : ITy) (rv : Int)
           exact ha this
       rw [BitVec.toInt_sdiv_of_ne_or_ne _ _ hne, e1, e2]
 
+
+theorem scale_e2 (b : Nat) : 2 * b * (5 * 10 ^ 4) = b * 10 ^ 5 := by omega
+theorem scale_e1 (a b : Nat) : (2 * a * 10 ^ 4 + b) * (5 * 10 ^ 4) = a * 10 ^ 9 + 5 * 10 ^ 4 * b := by omega
+
+/-- Truncating the quotient at 9 places and then rounding half-up to 4 places is the same as rounding
+the exact quotient half-up to 4 places (no double-rounding error). -/
+theorem trunc9_round4 (a b : Nat) (hb : 0 < b) :
+    (a * 10 ^ 9 / b + 5 * 10 ^ 4) / 10 ^ 5 = (2 * a * 10 ^ 4 + b) / (2 * b) := by
+  have h1 : a * 10 ^ 9 / b + 5 * 10 ^ 4 = (a * 10 ^ 9 + 5 * 10 ^ 4 * b) / b := by
+    rw [Nat.add_mul_div_right _ _ hb]
+  rw [h1, Nat.div_div_eq_div_mul]
+  have h2 : (2 * a * 10 ^ 4 + b) / (2 * b) = ((2 * a * 10 ^ 4 + b) * (5 * 10 ^ 4)) / ((2 * b) * (5 * 10 ^ 4)) := by
+    rw [Nat.mul_div_mul_right _ _ (by omega : 0 < 5 * 10 ^ 4)]
+  rw [h2]
+  rw [scale_e1, scale_e2]
+
+/-- `/` on two integers returns the exact quotient rounded half away from zero to 4 places (or NULL
+for a zero divisor), for all integers. -/
+theorem div_round_exact (lv rv : Int) : implDiv lv rv = exactDiv4 lv rv := by
+  unfold implDiv exactDiv4
+  by_cases hz : rv = 0
+  · simp [hz]
+  · simp only [hz, if_false]
+    have hb : 0 < rv.natAbs := Int.natAbs_pos.mpr hz
+    have hs : divInternalScale 0 0 = 9 := by decide
+    simp only [hs, divPrecInc]
+    have := trunc9_round4 lv.natAbs rv.natAbs hb
+    simp only [show (9 - 4 - 1 : Nat) = 4 from rfl, show (9 - 4 : Nat) = 5 from rfl]
+    rw [this]
+
+theorem zero_divisor_null (lt : ITy) (lv : Int) (rt : ITy) :
+    implIntDiv lt lv rt 0 = .null ∧ implMod lv 0 = .null ∧ implDiv lv 0 = .null := by
+  refine ⟨?_, by simp [implMod], by simp [implDiv]⟩
+  unfold implIntDiv toU64 toI64
+  cases lt <;> cases rt <;> simp [ITy.unsigned, maxI64]
+
+/-- `%`: the result has the sign of the dividend, is smaller than the divisor in magnitude, and
+`dividend = divisor * (dividend DIV divisor) + remainder` with the truncating quotient of `exactIntDiv`. -/
+theorem mod_sign_of_dividend (lv rv r : Int) (hz : rv ≠ 0) (h : implMod lv rv = .dec r 0) :
+    lv = rv * Int.tdiv lv rv + r ∧ r.natAbs < rv.natAbs ∧ (0 ≤ lv → 0 ≤ r) ∧ (lv ≤ 0 → r ≤ 0) := by
+  unfold implMod at h
+  rw [if_neg hz] at h
+  simp only [Obs.dec.injEq, and_true] at h
+  subst h
+  refine ⟨(Int.mul_tdiv_add_tmod lv rv).symm, ?_, ?_, ?_⟩
+  · rw [Int.natAbs_tmod]; exact Nat.mod_lt _ (Int.natAbs_pos.mpr hz)
+  · intro h0; exact Int.tmod_nonneg rv h0
+  · intro h0
+    have h1 : 0 ≤ (-lv).tmod rv := Int.tmod_nonneg rv (by omega)
+    rw [Int.neg_tmod] at h1
+    omega
+
+
+/-! ### Findings: the full-strength statement is false for the unchanged code -/
+
+/-- `SELECT 9223372036854775807 + 1` → `-9223372036854775808`. -/
+theorem finding_bigint_overflow_wraps :
+    ∃ op lt lv rt rv, lt.InRange lv ∧ rt.InRange rv ∧ bigint_overflow_wraps op lt lv rt rv ∧
+      implArith op lt lv rt rv = .int (-9223372036854775808) ∧
+      ¬ acceptable (arithResOk lt rt) (implArith op lt lv rt rv) (exactArith op lv rv) :=
+  ⟨.add, .i64, 9223372036854775807, .i8, 1, by decide⟩
+
+/-- `SELECT 200 - 201` (two TINYINT UNSIGNED literals) → `18446744073709551615`. -/
+theorem finding_bigint_overflow_wraps_narrow_unsigned :
+    ∃ lv rv, ITy.u8.InRange lv ∧ ITy.u8.InRange rv ∧ litTy lv = some .u8 ∧ litTy rv = some .u8 ∧
+      implArith .sub .u8 lv .u8 rv = .int 18446744073709551615 ∧ exactArith .sub lv rv = .int (-1) :=
+  ⟨200, 201, by decide⟩
+
+/-- `SELECT 18446744073709551615 + -9223372036854775808` → `-1`; the exact result fits BIGINT. -/
+theorem finding_unsigned_operand_clamped :
+    ∃ op lt lv rt rv, lt.InRange lv ∧ rt.InRange rv ∧ unsigned_operand_clamped lt lv rt rv ∧
+      ¬ bigint_overflow_wraps op lt lv rt rv ∧ implArith op lt lv rt rv = .int (-1) ∧
+      ¬ acceptable (arithResOk lt rt) (implArith op lt lv rt rv) (exactArith op lv rv) :=
+  ⟨.add, .u64, 18446744073709551615, .i64, -9223372036854775808, by decide⟩
+
+/-- `SELECT -9223372036854775808 DIV -1` → `-9223372036854775808`. -/
+theorem finding_intdiv_minint_by_minus1 :
+    ∃ lt lv rt rv, lt.InRange lv ∧ rt.InRange rv ∧ intdiv_minint_by_minus1 lt lv rt rv ∧
+      ¬ acceptable (intDivResOk lt rt) (implIntDiv lt lv rt rv) (exactIntDiv lv rv) :=
+  ⟨.i64, -9223372036854775808, .i8, -1, by decide⟩
+
+/-- `SELECT -500 DIV 200` → `18446744073709551614`. -/
+theorem finding_intdiv_mixed_negative_as_unsigned :
+    ∃ lt lv rt rv, lt.InRange lv ∧ rt.InRange rv ∧ intdiv_mixed_negative_as_unsigned lt lv rt rv ∧
+      implIntDiv lt lv rt rv = .int 18446744073709551614 ∧
+      ¬ acceptable (intDivResOk lt rt) (implIntDiv lt lv rt rv) (exactIntDiv lv rv) :=
+  ⟨.i16, -500, .u8, 200, by decide⟩
+
+/-- TINYINT UNSIGNED 200: `-c` → `56`. -/
+theorem finding_neg_unsigned_wraps :
+    ∃ t v, t.InRange v ∧ neg_unsigned_wraps t v ∧ implNeg t v = .int 56 ∧ exactNeg v = .int (-200) :=
+  ⟨.u8, 200, by decide⟩
+
+/-- MEDIUMINT -8388608: `-c` → `8388607`. -/
+theorem finding_neg_mediumint_min_clamped :
+    ∃ t v, t.InRange v ∧ neg_mediumint_min_clamped t v ∧ implNeg t v = .int 8388607 ∧ exactNeg v = .int 8388608 :=
+  ⟨.i24, -8388608, by decide⟩
+
+/-! ### Non-vacuity of the guarded theorems -/
+
+example : ITy.i64.InRange 9223372036854775806 ∧ ITy.u8.InRange 1 ∧
+    ¬ unsigned_operand_clamped .i64 9223372036854775806 .u8 1 ∧
+    ¬ bigint_overflow_wraps .add .i64 9223372036854775806 .u8 1 ∧
+    implArith .add .i64 9223372036854775806 .u8 1 = .int 9223372036854775807 := by decide
+
+example : ITy.u64.InRange 18446744073709551615 ∧ ITy.u32.InRange 4294967295 ∧
+    ¬ unsigned_operand_clamped .u64 18446744073709551615 .u32 4294967295 ∧
+    ¬ bigint_overflow_wraps .sub .u64 18446744073709551615 .u32 4294967295 ∧
+    implArith .sub .u64 18446744073709551615 .u32 4294967295 = .int 18446744069414584320 := by decide
+
+example : implArith .mul .i32 (-2147483648) .u32 4294967295 = .int (-9223372034707292160) := by decide
+
+example : ¬ intdiv_minint_by_minus1 .i64 (-9223372036854775808) .i8 1 ∧
+    ¬ intdiv_mixed_negative_as_unsigned .i64 (-7) .i8 2 ∧ implIntDiv .i64 (-7) .i8 2 = .int (-3) ∧
+    implIntDiv .u64 18446744073709551615 .i8 1 = .errRange ∧ implMod (-7) 2 = .dec (-1) 0 ∧
+    implDiv 2 3 = .dec 6667 4 ∧ implDiv (-2) 3 = .dec (-6667) 4 ∧ implDiv 3000001 20000006667 = .dec 1 4 := by decide
+
+example : ¬ neg_unsigned_wraps .u32 2147483648 ∧ implNeg .u32 2147483648 = .int (-2147483648) ∧
+    implNeg .i64 (-9223372036854775808) = .errRange ∧ implNeg .i8 (-128) = .int 128 := by decide
+
+
+
+/-! ### Obligations over the facts regenerated from the source on this run -/
+
+def goIntTypes : List String := ["uint8", "int8", "uint16", "int16", "uint32", "int32", "uint64", "int64"]
+
+/-- `plus/minus/mult`: every integer Go type is combined only with itself and by the native operator
+(so the 64-bit model `AOp.bv` is what runs after both operands were converted to the result type). -/
+theorem facts_match_switch :
+    Gms.Generated.C25.plusCases = goIntTypes.map (fun t => (t, t, "l + r")) ∧
+    Gms.Generated.C25.minusCases = goIntTypes.map (fun t => (t, t, "l - r")) ∧
+    Gms.Generated.C25.multCases = goIntTypes.map (fun t => (t, t, "l * r")) ∧
+    Gms.Generated.C25.intDivIntCases = [("uint64", "uint64"), ("int64", "int64")] := by
+  decide
+
+/-- `UnaryMinus.Eval`: the conversions the model `implNeg` transliterates. -/
+theorem facts_match_neg :
+    Gms.Generated.C25.negCases = [("int8", "-int64(n)"), ("int16", "-int64(n)"), ("int32", "-int64(n)"),
+      ("int64", "-n"), ("uint8", "-int8(n)"), ("uint16", "-int16(n)"), ("uint32", "-int32(n)"), ("uint64", "-int64(n)")] ∧
+    Gms.Generated.C25.negInt64Guard = "n == math.MinInt64" ∧
+    Gms.Generated.C25.negInt64GuardError = "sql.ErrValueOutOfRange.New" := by
+  decide
+
+theorem facts_match_consts :
+    Gms.Generated.C25.divPrecInc = divPrecInc ∧ Gms.Generated.C25.divIntPrecInc = divIntPrecInc := by
+  decide
+
+/-- The declared result type of every operator on every pair of integer types, dumped from the real
+expression nodes, is the one the model renders through (600 entries, all pairs). -/
+theorem facts_match_types :
+    (∀ e ∈ Gms.Generated.C25.binTypeTable, binResTy e.1 e.2.1 e.2.2.1 = e.2.2.2) ∧
+    Gms.Generated.C25.binTypeTable.length = 600 ∧
+    (∀ e ∈ Gms.Generated.C25.negTypeTable, negResTy e.1 = e.2) ∧
+    Gms.Generated.C25.negTypeTable.map (·.1) = ITy.all := by
+  decide +kernel
+
+/-- The planbuilder types integer literals at every boundary the way `litTy` does. -/
+theorem facts_match_literals :
+    (∀ e ∈ Gms.Generated.C25.litTypeTable, litTy e.1 = e.2) ∧ 60 ≤ Gms.Generated.C25.litTypeTable.length := by
+  decide
+
+
 end Gms.C25
